@@ -12,6 +12,11 @@ import PMH.Model.Exp01
 import PMH.Model.Exp1
 import PMH.Model.ProbMinHash3
 import PMH.Model.ProbMinHash2
+import PMH.Model.SuperMinHash
+import PMH.Model.SuperMinHash2
+import PMH.Model.SetSketch
+import PMH.Model.ChaCha
+import PMH.Model.DensMinHash
 import Std.Data.HashMap
 /-!
 # `pmhdriver`: line protocol in front of the executable models
@@ -27,6 +32,12 @@ structure DState where
   fy : Std.HashMap String FY := {}
   pmh3 : Std.HashMap String (PMH3 Float Xo × Exp01 Float) := {}
   pmh2 : Std.HashMap String (PMH2 Float) := {}
+  smh64 : Std.HashMap String (SMH Float) := {}
+  smh32 : Std.HashMap String (SMH Float32) := {}
+  smh2 : Std.HashMap String SMH2 := {}
+  ssk : Std.HashMap String SSK := {}
+  dens64 : Std.HashMap String (Dens Float) := {}
+  dens32 : Std.HashMap String (Dens Float32) := {}
 
 def errWord (e : Err) : String :=
   match e with
@@ -297,6 +308,150 @@ def stepExp : List String → String
     | _, _ => "bad-op"
   | _ => "bad-op"
 
+def two64F : Float := 18446744073709551616.0
+def smhOps64 : SmhOps Float Xo :=
+  { unif := unif01, unifK := unifUsize, ofNat := Float.ofNat,
+    toUsize := fun x => if x.isNaN || x <= -1.0 || x >= two64F then none else some x.toUInt64.toNat }
+def smhOps32 : SmhOps Float32 Xo :=
+  { unif := unif01f32, unifK := unifUsize, ofNat := Float32.ofNat,
+    toUsize := fun x => if x.isNaN || x <= -1.0 || x.toFloat >= two64F then none else some x.toUInt64.toNat }
+def large64 : Float := Float.ofNat 4294967295
+def large32 : Float32 := Float32.ofNat 4294967295
+
+def dumpInts (a : Array Int) : String := joinSp (a.toList.map toString)
+
+def dumpSmh {F : Type} (hex : F → String) (s : SMH F) : String :=
+  joinSp (s.hsketch.toList.map hex) ++ " | " ++ dumpInts s.q ++ " | " ++ dumpNats s.p ++ " | " ++ dumpInts s.b ++
+    " | " ++ toString s.itemRank ++ " " ++ toString s.aUpper
+
+def stepSmh (st : DState) : List String → DState × String
+  | ["new64", n, m] => match m.toNat? with
+    | some m => (match SMH.new smhOps64 large64 m with
+      | .ok s => ({ st with smh64 := st.smh64.insert n s }, "ok") | .error e => (st, errWord e))
+    | none => (st, "bad-op")
+  | ["new32", n, m] => match m.toNat? with
+    | some m => (match SMH.new smhOps32 large32 m with
+      | .ok s => ({ st with smh32 := st.smh32.insert n s }, "ok") | .error e => (st, errWord e))
+    | none => (st, "bad-op")
+  | ["sk64", n, sd] => match st.smh64[n]?, u64OfHex sd with
+    | some s, some sd => (match s.sketch smhOps64 (Xo.seedFromU64 sd) with
+      | .ok s' => ({ st with smh64 := st.smh64.insert n s' }, "ok") | .error e => (st, errWord e))
+    | _, _ => (st, "bad-op")
+  | ["sk32", n, sd] => match st.smh32[n]?, u64OfHex sd with
+    | some s, some sd => (match s.sketch smhOps32 (Xo.seedFromU64 sd) with
+      | .ok s' => ({ st with smh32 := st.smh32.insert n s' }, "ok") | .error e => (st, errWord e))
+    | _, _ => (st, "bad-op")
+  | ["reinit64", n] => match st.smh64[n]? with
+    | some s => ({ st with smh64 := st.smh64.insert n (s.reinit large64) }, "ok") | none => (st, "bad-op")
+  | ["reinit32", n] => match st.smh32[n]? with
+    | some s => ({ st with smh32 := st.smh32.insert n (s.reinit large32) }, "ok") | none => (st, "bad-op")
+  | ["dump64", n] => match st.smh64[n]? with | some s => (st, dumpSmh f64Hex s) | none => (st, "bad-op")
+  | ["dump32", n] => match st.smh32[n]? with | some s => (st, dumpSmh f32Hex s) | none => (st, "bad-op")
+  | ["sk64n", n, sd] => match st.smh64[n]?, u64OfHex sd with   -- sketch_slice: items as a run of sk ops; helper kept for symmetry
+    | some _, some _ => (st, "ok") | _, _ => (st, "bad-op")
+  | _ => (st, "bad-op")
+
+def smh2Ops : Smh2Ops Xo :=
+  { nextR := fun g => unifU64 0 18446744073709551615 g, nextU := fun g => g.next,
+    offsetOf := fun u n => FY.offsetOf (unif01OfU64 u) n }
+
+def dumpSmh2 (s : SMH2) : String :=
+  dumpNats s.hsketch ++ " | " ++ dumpNats s.values ++ " | " ++ dumpNats s.l ++ " | " ++ dumpNats s.b ++ " | " ++ toString s.aUpper
+
+def stepSmh2 (st : DState) : List String → DState × String
+  | ["new", n, imax, m] => match imax.toNat?, m.toNat? with
+    | some imax, some m => (match SMH2.new imax m with
+      | .ok s => ({ st with smh2 := st.smh2.insert n s }, "ok") | .error e => (st, errWord e))
+    | _, _ => (st, "bad-op")
+  | ["sk", n, hv] => match st.smh2[n]?, u64OfHex hv with
+    | some s, some hv => (match s.sketch smh2Ops hv.toNat (Xo.seedFromU64 hv) with
+      | .ok s' => ({ st with smh2 := st.smh2.insert n s' }, "ok") | .error e => (st, errWord e))
+    | _, _ => (st, "bad-op")
+  | ["reinit", n] => match st.smh2[n]? with
+    | some s => ({ st with smh2 := st.smh2.insert n s.reinit }, "ok") | none => (st, "bad-op")
+  | ["dump", n] => match st.smh2[n]? with | some s => (st, dumpSmh2 s) | none => (st, "bad-op")
+  | _ => (st, "bad-op")
+
+def sskOps : SskOps Xo :=
+  { nextE := exp1, nextU := fun g => g.next, offsetOf := fun u n => FY.offsetOf (unif01OfU64 u) n }
+
+def stepSsk (st : DState) : List String → DState × String
+  | ["new", n, b, m, a, q, imax] => match f64OfHex b, m.toNat?, f64OfHex a, q.toNat?, imax.toNat? with
+    | some b, some m, some a, some q, some imax =>
+      ({ st with ssk := st.ssk.insert n (SSK.new b m a q imax (Float.log1p (b - 1.0))) }, "ok")
+    | _, _, _, _, _ => (st, "bad-op")
+  | ["sk", n, sd] => match st.ssk[n]?, u64OfHex sd with
+    | some s, some sd => (match s.sketch sskOps (Xo.seedFromU64 sd) with
+      | .ok s' => ({ st with ssk := st.ssk.insert n s' }, "ok") | .error e => (st, errWord e))
+    | _, _ => (st, "bad-op")
+  | ["merge", n, o] => match st.ssk[n]?, st.ssk[o]? with
+    | some s, some t => (match s.merge t with
+      | .ok s' => ({ st with ssk := st.ssk.insert n s' }, "ok") | .error e => (st, errWord e))
+    | _, _ => (st, "bad-op")
+  | ["reinit", n] => match st.ssk[n]? with
+    | some s => ({ st with ssk := st.ssk.insert n s.reinit }, "ok") | none => (st, "bad-op")
+  | ["dump", n] => match st.ssk[n]? with
+    | some s => (st, dumpNats s.kvec ++ " | " ++ toString s.lowerK ++ " " ++ toString s.nbmin ++ " " ++ toString s.nbOverflow)
+    | none => (st, "bad-op")
+  | ["card", n] => match st.ssk[n]? with
+    | some s => let (c, r) := s.cardinalStats (Float.log1p (s.b - 1.0)); (st, f64Hex c ++ " " ++ f64Hex r)
+    | none => (st, "bad-op")
+  | _ => (st, "bad-op")
+
+def densOps64 : DensOps Float Xo ChaCha.Rng :=
+  { unif := unif01, unifK := fun m g => unifUsize 0 m g, mkRng := fun sd => ChaCha.seedFromU64 sd.toUInt64,
+    draw := fun m r => ChaCha.unifBelow m 1000 r }
+def densOps32 : DensOps Float32 Xo ChaCha.Rng :=
+  { unif := unif01f32, unifK := fun m g => unifUsize 0 m g, mkRng := fun sd => ChaCha.seedFromU64 sd.toUInt64,
+    draw := fun m r => ChaCha.unifBelow m 1000 r }
+
+def dumpDens {F : Type} (hex : F → String) (s : Dens F) : String :=
+  joinSp (s.hsketch.toList.map hex) ++ " | " ++ dumpNats s.values ++ " | " ++
+    joinSp (s.init.toList.map (fun b => if b then "1" else "0")) ++ " | " ++ toString s.nbEmpty
+
+def densFuel : Nat := 200000
+
+def stepDens (st : DState) : List String → DState × String
+  | ["new64", n, m] => match m.toNat? with
+    | some m => ({ st with dens64 := st.dens64.insert n (Dens.new large64 m) }, "ok") | none => (st, "bad-op")
+  | ["new32", n, m] => match m.toNat? with
+    | some m => ({ st with dens32 := st.dens32.insert n (Dens.new large32 m) }, "ok") | none => (st, "bad-op")
+  | ["sk64", n, hv] => match st.dens64[n]?, u64OfHex hv with
+    | some s, some hv => (match s.sketch densOps64 hv.toNat (Xo.seedFromU64 hv) with
+      | .ok s' => ({ st with dens64 := st.dens64.insert n s' }, "ok") | .error e => (st, errWord e))
+    | _, _ => (st, "bad-op")
+  | ["sk32", n, hv] => match st.dens32[n]?, u64OfHex hv with
+    | some s, some hv => (match s.sketch densOps32 hv.toNat (Xo.seedFromU64 hv) with
+      | .ok s' => ({ st with dens32 := st.dens32.insert n s' }, "ok") | .error e => (st, errWord e))
+    | _, _ => (st, "bad-op")
+  | ["end64", n, alg] => match st.dens64[n]? with
+    | some s => (match s.endSketch densOps64 (alg == "opt") densFuel with
+      | .ok s' => ({ st with dens64 := st.dens64.insert n s' }, "ok") | .error e => (st, errWord e))
+    | none => (st, "bad-op")
+  | ["end32", n, alg] => match st.dens32[n]? with
+    | some s => (match s.endSketch densOps32 (alg == "opt") densFuel with
+      | .ok s' => ({ st with dens32 := st.dens32.insert n s' }, "ok") | .error e => (st, errWord e))
+    | none => (st, "bad-op")
+  | "slice64" :: n :: alg :: hs => match st.dens64[n]?, hs.mapM u64OfHex with
+    | some s, some hs => (match s.sketchSlice densOps64 (alg == "opt") densFuel (hs.map (fun h => (h.toNat, Xo.seedFromU64 h))) with
+      | .ok s' => ({ st with dens64 := st.dens64.insert n s' }, "ok") | .error e => (st, errWord e))
+    | _, _ => (st, "bad-op")
+  | "slice32" :: n :: alg :: hs => match st.dens32[n]?, hs.mapM u64OfHex with
+    | some s, some hs => (match s.sketchSlice densOps32 (alg == "opt") densFuel (hs.map (fun h => (h.toNat, Xo.seedFromU64 h))) with
+      | .ok s' => ({ st with dens32 := st.dens32.insert n s' }, "ok") | .error e => (st, errWord e))
+    | _, _ => (st, "bad-op")
+  | ["reinit64", n] => match st.dens64[n]? with
+    | some s => ({ st with dens64 := st.dens64.insert n (s.reinit large64) }, "ok") | none => (st, "bad-op")
+  | ["reinit32", n] => match st.dens32[n]? with
+    | some s => ({ st with dens32 := st.dens32.insert n (s.reinit large32) }, "ok") | none => (st, "bad-op")
+  | ["dump64", n] => match st.dens64[n]? with | some s => (st, dumpDens f64Hex s) | none => (st, "bad-op")
+  | ["dump32", n] => match st.dens32[n]? with | some s => (st, dumpDens f32Hex s) | none => (st, "bad-op")
+  | ["chacha", sd, m, cnt] => match sd.toNat?, m.toNat?, cnt.toNat? with
+    | some sd, some m, some cnt => (st, match iterE (ChaCha.unifBelow m 1000) cnt (ChaCha.seedFromU64 sd.toUInt64) with
+      | .ok l => joinSp (l.map toString) | .error e => errWord e)
+    | _, _, _ => (st, "bad-op")
+  | _ => (st, "bad-op")
+
 def step (st : DState) (line : String) : DState × String :=
   match (line.trimAscii.toString.splitOn " ").filter (· ≠ "") with
   | "case" :: id :: _ => (st, "case " ++ id)
@@ -308,6 +463,10 @@ def step (st : DState) (line : String) : DState × String :=
   | "jac" :: rest => (st, stepJac rest)
   | "pj" :: rest => (st, stepPj rest)
   | "pmh3" :: rest => stepPmh3 st rest
+  | "smh" :: rest => stepSmh st rest
+  | "smh2" :: rest => stepSmh2 st rest
+  | "ssk" :: rest => stepSsk st rest
+  | "dens" :: rest => stepDens st rest
   | "pmh2" :: rest => stepPmh2 st rest
   | "rnd" :: rest => (st, stepExp rest)
   | _ => (st, "bad-op")
